@@ -224,9 +224,9 @@ def stepMach (st : DState) (toks : List String) : Except String (Mach × String)
           throw s!"DESYNC the model needs exp(-1/{nIter - nn}) but it was not supplied"
       | .same => pure ()
     let f := ssAlpha c nn nIter
-    let amb := upd && (near rate xi || match cap, vmax a.num.vals with
+    let amb := upd && (near rate xi || (decide (1 < f) && match cap, vmax a.num.vals with
       | some cp, some mx => near (f * mx) cp
-      | _, _ => false)
+      | _, _ => false))
     match ssUpdate c a acc with
     | none => throw "raise ss: n_iter <= 0"
     | some a' => pure (.ss mm diag xi cap a',
@@ -271,7 +271,7 @@ def stepMach (st : DState) (toks : List String) : Except String (Mach × String)
     if upd && ((kv toks "ek").isNone || (kv toks "nm").isNone) then
       throw "DESYNC the model updates but exp(log kappa) / the normalisation were not supplied"
     match vmfUpdate c a acc { ar := ar, ek := ek, nm := nm } with
-    | none => throw s!"raise vmf: {if 0 < ek then "normalisation" else "kappa"} must be > 0"
+    | none => throw s!"raise vmf: {if 0 < ek then "normalisation must be >= 0" else "kappa must be > 0"}"
     | some a' => pure (.vmf xi a', s!"{header a'.clock upd dk false} lk={showRat a'.num.logKappa} kappa={showRat a'.num.kappa} norm={showRat a'.num.norm}")
 
 def handleLine (st : DState) (line : String) : DState × List String :=
